@@ -41,6 +41,8 @@ def scenarios(tier, rng):
                     kw["max"] = rng.choice([1, 2, 4])
                 if rng.random() < 0.4:
                     kw["async"] = rng.random() < 0.5
+                if rng.random() < 0.5:
+                    kw["positional"] = True          # the documented parameter order, passed positionally
             # explicit step: one of the retained steps of a run of k1 iterations with this cadence
             if kw.get("step") == "EXPLICIT":
                 due = sorted({i for i in range(1, k1 + 1) if i % freq == 0} | {k1})
@@ -54,6 +56,15 @@ def scenarios(tier, rng):
             out.append(base_scenario(f"{kind}-{pname}-{j}-f{freq}m{keep}{'a' if isasync else 's'}-" +
                                      "_".join(f"{a}{str(b).strip('@')}" for a, b in sorted(kw.items())),
                                      kind, pname, pspec, full, freq, keep, isasync, [g1, g2]))
+    # all overrides at once, distinct values, passed positionally in the documented order
+    for kind, pname in (("VI", "forest"), ("PI", "de_moor")):
+        pspec, full = P[pname]
+        out.append(base_scenario(f"{kind}-{pname}-all-overrides-positional", kind, pname, pspec, full, 2, 5, False,
+                                 [{"ops": [{"op": "new"}, {"op": "solve", "k": 6}, {"op": "wait"}, {"op": "list", "dir": "@A"}]},
+                                  {"ops": [{"op": "list", "dir": "@A"},
+                                           restore_op(full, new_dir="@B", freq=3, max=2, positional=True, **{"async": True}),
+                                           {"op": "solve", "k": 6}, {"op": "wait"}, {"op": "list", "dir": "@B"},
+                                           {"op": "list", "dir": "@A"}], "check_unchanged_A": True}]))
     # "latest" must be the numerically latest step (9 < 10 < 11, 99 < 100)
     for kind, pname in (("VI", "forest"), ("PVI", "forest12"), ("VI", "tabular")):
         pspec, full = P[pname]
